@@ -30,6 +30,7 @@ package encoding
 //@ # L3: decoding an encoded symbol gives the (upper-case) symbol back, in both gap modes
 //@ lemma DA_roundtrip [C03,C16]: forallb(c, implies(accepted(c), MakeDecodingArray()[MakeEncodingArray()[c]] == symstr(upper(c)) && MakeDecodingArray()[MakeEncodingArrayHardGaps()[c]] == symstr(upper(c))))
 //@ # C07: "resolved" (a & 8 == 8) means exactly A/C/G/T; on resolved symbols a|b == 200 is {A,G} and a|b == 56 is {C,T}
+//@ lemma EA_gap [C11]: forallb(c, (MakeEncodingArray()[c] == 244) == (c == '-'))
 //@ lemma EA_resolved [C07,C10,C08]: forallb(c, implies(accepted(c), ((MakeEncodingArray()[c] & 8) == 8) == isACGT(c)))
 //@ lemma EA_same [C07]: forallb(c, forallb(d, implies(isACGT(c) && isACGT(d), (MakeEncodingArray()[c] == MakeEncodingArray()[d]) == (upper(c) == upper(d)))))
 //@ lemma EA_purine [C07]: forallb(c, forallb(d, implies(isACGT(c) && isACGT(d) && upper(c) != upper(d), ((MakeEncodingArray()[c] | MakeEncodingArray()[d]) == 200) == ((upper(c) == 'A' && upper(d) == 'G') || (upper(c) == 'G' && upper(d) == 'A')))))
